@@ -128,6 +128,7 @@ class Interp:
         self.lits = set()      # (width, bits) literals needing b2r axioms (R)
         self.apps = {}         # libm UF name -> list of closed rewritten argument tuples (R/U axioms)
         self.stats = {'fp_ops': 0, 'glue': 0}
+        self.ulits = set()     # float literals compared against in U mode
 
     # ---------------------------------------------------------------- sorts
     def sort(self, s):
@@ -469,6 +470,10 @@ class Interp:
             h, a = 'fp.lt', [a[1], a[0]]
         elif h == 'fp.geq':
             h, a = 'fp.leq', [a[1], a[0]]
+        if h in FP_PREDS:
+            for x in a:
+                if isinstance(x, str) and x.startswith('#b') and len(x) == W + 2:
+                    self.ulits.add(x[2:])
         name = 'u.' + h[3:] + str(W)
         if h == 'fp.roundToIntegral':
             name = 'u.rti_' + RMS.get(t[1], 'RNE') + str(W)
@@ -616,9 +621,63 @@ class Interp:
             res = c
         return self.pending + [dumps(res)]
 
+    def small_int_facts(self):
+        """U mode: ground IEEE facts about the integers -32..32 as doubles (exact, computed here): their
+        int->float conversion, the float->int conversion back, and their order against every float literal
+        the VC compares with. Lets index values that travel through an `as f64` / `as usize` round trip
+        (DiscreteUniform::sample) be decided without bit-blasting the conversions."""
+        import struct
+        conv = [n for n in self.ufdecl if n.startswith('u.s2f_') or n.startswith('u.u2f_')]
+        if not conv:
+            return []
+        def bits(x):
+            return bin(struct.unpack('<Q', struct.pack('<d', float(x)))[0])[2:].zfill(64)
+        def val(b):
+            return struct.unpack('<d', struct.pack('<Q', int(b, 2)))[0]
+        out = []
+        ks = list(range(-32, 33))
+        for name in conv:
+            _, iw, fw = name.split('_')
+            if fw != '64':
+                continue
+            iw = int(iw)
+            for k in ks:
+                if name.startswith('u.u2f') and k < 0:
+                    continue
+                lit = '#b' + bin(k & ((1 << iw) - 1))[2:].zfill(iw)
+                out.append(f'(assert (= ({name} {lit}) #b{bits(k)}))')
+        for name in list(self.ufdecl):
+            m = name.startswith('u.sbv_64_') or name.startswith('u.ubv_64_')
+            if not m:
+                continue
+            ow = int(name.split('_')[2])
+            for k in ks:
+                if name.startswith('u.ubv') and k < 0:
+                    continue
+                lit = '#b' + bin(k & ((1 << ow) - 1))[2:].zfill(ow)
+                out.append(f'(assert (= ({name} #b{bits(k)}) {lit}))')
+        lits = sorted(self.ulits | {bits(k) for k in ks})
+        small = [bits(k) for k in ks]
+        for pred, fn in (('u.lt64', lambda x, y: x < y), ('u.leq64', lambda x, y: x <= y), ('u.eq64', lambda x, y: x == y)):
+            if pred not in self.ufdecl:
+                continue
+            for a in small:
+                for b in lits:
+                    if len(b) != 64:
+                        continue
+                    out.append(f'(assert (= ({pred} #b{a} #b{b}) {"true" if fn(val(a), val(b)) else "false"}))')
+                    if b not in small:
+                        out.append(f'(assert (= ({pred} #b{b} #b{a}) {"true" if fn(val(b), val(a)) else "false"}))')
+        if 'u.isNaN64' in self.ufdecl:
+            for a in small:
+                out.append(f'(assert (not (u.isNaN64 #b{a})))')
+        return out
+
     def finish(self):
         """axioms that depend on the whole file (literal values for b2r)"""
         lines = []
+        if self.mode == 'U':
+            lines += self.small_int_facts()
         if self.mode == 'R' and UFPFX + 'in_f64' in self.funret:
             # R inputs are reals: none of them is the distinguished NaN value
             # and all lie in the finite f64 range
